@@ -53,6 +53,9 @@ class Machine(object):
         import multiprocessing
         pmax = self.SWEEP_PMAX[tier]
         tasks = [(n, pmax, order) for n in co.FAST for order in ('asc', 'desc')]
+        # the interval constants of the same names (and euler): at every precision the interval must contain the
+        # constant and be at most one ulp wide
+        tasks += [(n, pmax, 'iv') for n in co.OWN if n in IV_CONSTS]
         bad = []
         n_eval = 0
         straddle = 0
@@ -104,7 +107,14 @@ class Machine(object):
     def extra_violations(self):
         """violations that have no seeded program: the exhaustive sweep"""
         out = []
-        for b in getattr(self, 'sweep_bad', [])[:5]:
+        bad = getattr(self, 'sweep_bad', [])
+        for b in [x for x in bad if x[2] == 'iv'][:5]:
+            name, p, r, got, exp, order = b
+            prog = {'property': 'C17', 'seed': 0, 'config': {'budget': self.BUDGET['quick']},
+                    'steps': [_req_step(1, name, 'iv', p, 'n', 'iv')]}
+            out.append((prog, {'property': 'C17', 'check': 'interval-too-wide' if 'wider than 1 ulp: True' in got and 'False' not in got else 'interval-excludes-constant',
+                               'entry': name + '/iv', 'step': 1, 'detail': {'const': name, 'p': p, 'sweep': got}}))
+        for b in [x for x in bad if x[2] != 'iv'][:5]:
             name, p, r, got, exp, order = b
             prog = {'property': 'C17', 'seed': 0, 'config': {'budget': self.BUDGET['quick']},
                     'steps': [_req_step(1, name, 'lib', p, r, 'mp')]}
@@ -148,6 +158,25 @@ class Machine(object):
 
 def _sweep_one(task):
     name, pmax, order = task
+    def fn_iv():
+        import mpmath
+        iv = mpmath.iv
+        bad = []; evals = 0; straddle = 0
+        for p in range(1, pmax + 1):
+            iv.prec = p
+            a, b = iv.mpf(getattr(iv, name))._mpi_
+            evals += 1
+            if a[0] or b[0]:
+                bad.append((name, p, 'iv', 'negative endpoint', '', 'iv')); continue
+            ok_a = co.contains(name, int(a[1]), a[2], 'le'); ok_b = co.contains(name, int(b[1]), b[2], 'ge')
+            if ok_a is None or ok_b is None:
+                straddle += 1
+            top = max(int(b[1]).bit_length() + b[2], int(a[1]).bit_length() + a[2])
+            e = min(a[2], b[2], top - p)
+            wide = (int(b[1]) << (b[2] - e)) - (int(a[1]) << (a[2] - e)) > (1 << (top - p - e))
+            if ok_a is False or ok_b is False or wide:
+                bad.append((name, p, 'iv', 'a<=c: %s, b>=c: %s, wider than 1 ulp: %s' % (ok_a, ok_b, wide), '', 'iv'))
+        return {'evals': evals, 'straddle': straddle, 'bad': bad[:10]}
     def fn():
         import mpmath
         f = getattr(mpmath.libmp, 'mpf_' + name)
@@ -164,7 +193,7 @@ def _sweep_one(task):
                 if got[0] != 0 or (int(got[1]), got[2]) != e:
                     bad.append((name, p, r, [int(got[1]).bit_length(), got[2]], [e[0].bit_length(), e[1]], order))
         return {'evals': evals, 'straddle': straddle, 'bad': bad[:10]}
-    st, val = isolate.call(fn, timeout=600)
+    st, val = isolate.call(fn_iv if order == 'iv' else fn, timeout=600)
     if st != 'ok':
         raise RuntimeError('sweep failed: %s %s' % (st, val))
     return val
